@@ -20,8 +20,8 @@ CONSTANTS SmallFileLimits,   \* e.g. {1, 4096}
           BigLim2,           \* BOOLEAN: include the lim2 scenarios (50 MiB members)
           Parts              \* subset of {"a", "b"}
 
-VARIABLE gov
-gvars == <<vars, gov>>
+VARIABLES gov, cls
+gvars == <<vars, gov, cls>>
 
 Around(x) == {x - 1, x, x + 1}
 
@@ -96,9 +96,8 @@ GovernsScn(s) ==
 Scenarios == (IF "a" \in Parts THEN ReadFileAll \cup SevenzScns \cup MemberScnsOK \cup Lim2Scns ELSE {})
              \cup (IF "b" \in Parts THEN CostScns ELSE {})
 
-GenInit == \E s \in Scenarios : InitWith(s) /\ gov = GovernsScn(s)
-GenNext == Next /\ UNCHANGED gov
+GenInit == \E s \in Scenarios : InitWith(s) /\ gov = GovernsScn(s) /\ cls = ""
+GenNext == Next /\ UNCHANGED gov /\ cls' = (IF scn.k = "cost" /\ pc' = "done" THEN Classify(work'[1], work'[2], scn.skib) ELSE "")
 GenSpec == GenInit /\ [][GenNext]_gvars
 
-\* alias-free dump helper: the class of a finished cost scenario is recomputed by the driver from `work`
 =============================================================================
